@@ -722,7 +722,7 @@ def enc7(ctx, c):
             if isinstance(x, ast.Compare) and len(x.ops) == 1 and isinstance(x.ops[0], (ast.NotIn, ast.In)) and U(x.left) == "self.left":
                 names_ = try_fold_(x.comparators[0], {**ctx.env, **ctx.self_env(cn_)}) if not isinstance(x.comparators[0], ast.Constant) else x.comparators[0].value
                 if isinstance(names_, (list, tuple, set, frozenset, str)) and "A" in names_:
-                    got_ = set(names_)
+                    got_ = set(names_) - {""}          # the empty offset (",R") is sometimes folded into the same membership test
                     c.check(got_ == {"A", "B", "D"}, "%s.resolve_symbols:accumulators" % cn_, "A, B, D are not looked up", "not looked up: %s" % sorted(got_),
                             "%s.resolve_symbols leaves the offsets %s unresolved as accumulator names; translate() knows the accumulator offsets A, B and D only, so a symbol called %s "
                             "is never replaced by its value and the statement is rejected or mis-encoded" % (cn_, sorted(got_), "/".join(sorted(got_ - {"A", "B", "D"})) or "-"), repo.loc(rs_, x))
